@@ -90,6 +90,17 @@ pub fn block_on_workers<F: std::future::Future>(workers: usize, f: F) -> F::Outp
 	})
 }
 
+/// Shut this thread's runtime down now. Runner threads call this before they exit: a runtime
+/// dropped by the thread-local destructor at thread exit may touch tokio's own (already
+/// destroyed) thread-locals, which panics below every catch frame and aborts the process.
+pub fn shutdown_thread_runtime() {
+	RT.with(|rt| {
+		if let Some(r) = rt.borrow_mut().take() {
+			r.shutdown_background();
+		}
+	});
+}
+
 // ---------------------------------------------------------------------------------------
 // independent compression (flate2 / brotli directly, never versatiles code)
 // ---------------------------------------------------------------------------------------
